@@ -195,6 +195,43 @@ fn draw_dec_spec(rng: &mut Rng, prop: &str, skip_fast: bool, run_index: u64) -> 
         let form16 = rng.chance(1, 2);
         return (DecSpec { enc, bom: Bom::Off, repl, form16, stream: bytes, skip_fast }, st);
     }
+    // C07: now and then a long stream whose BOM (or withheld look-alike) makes
+    // the sniffing decoder produce far more than its nominal encoding's own
+    // worst case, delivered whole into a String of exactly the queried size
+    if prop == "C07" && !crate::gen::tiny() && run_index % 64 == 7 {
+        let enc = rng.pick(&[REPLACEMENT, UTF_16LE, UTF_16BE, WINDOWS_1252, WINDOWS_874, X_USER_DEFINED, ISO_2022_JP, BIG5]);
+        let n = rng.range(1400, 2400);
+        let mut bytes: Vec<u8> = Vec::new();
+        match rng.below(4) {
+            0 => {
+                bytes.extend_from_slice(&[0xEF, 0xBB, 0xBF]);
+                let t: String = (0..n).map(|_| rng.pick(&['\u{4E00}', '\u{3042}', 'a', '\u{20AC}', '\u{1F4A9}', '\u{E9}'])).collect();
+                bytes.extend_from_slice(t.as_bytes());
+            }
+            1 => {
+                let le = rng.chance(1, 2);
+                bytes.extend_from_slice(if le { &[0xFF, 0xFE] } else { &[0xFE, 0xFF] });
+                for _ in 0..n {
+                    let u: u16 = rng.pick(&[0x4E00u16, 0x3042, 0x61, 0x20AC, 0xE9, 0xFFFD]);
+                    if le {
+                        bytes.extend_from_slice(&u.to_le_bytes());
+                    } else {
+                        bytes.extend_from_slice(&u.to_be_bytes());
+                    }
+                }
+            }
+            _ => {
+                // withheld look-alike in front of bytes that all expand threefold
+                bytes.extend_from_slice(rng.pick(&[&[0xEFu8][..], &[0xEF, 0xBB][..], &[0xFE][..], &[0xFF][..]]));
+                for _ in 0..n {
+                    bytes.push(rng.range(0xA1, 0xDA) as u8);
+                }
+            }
+        }
+        let st = DecStream { bytes: bytes.clone(), strategy: "long-morph", corrupt: false, truncate: false, bom_prefix: true };
+        let form16 = rng.chance(1, 4);
+        return (DecSpec { enc, bom: Bom::Sniff, repl: rng.chance(1, 2), form16, stream: bytes, skip_fast }, st);
+    }
     let enc = crate::encs::pick(rng);
     let bom = match prop {
         "C10" => rng.pick(&[Bom::Sniff, Bom::Sniff, Bom::Remove, Bom::Off]),
@@ -314,16 +351,20 @@ pub fn generate(prop: &str, rng: &mut Rng, skip_fast: bool, run_index: u64) -> (
                 "C05" => {
                     p.reuse = rng.chance(1, 2);
                     p.submin = rng.chance(1, 3);
+                    p.switch_methods = rng.chance(1, 4);
                 }
                 "C07" => {
                     p.query_pct = 70;
                     p.peek = rng.chance(1, 2);
+                    p.switch_methods = rng.chance(1, 3);
                 }
                 "C08" => {
                     p.cap = rng.pick(&[0u8, 0, 1, 1, 2]);
                     p.stall = true;
                     p.query_pct = 0;
+                    p.switch_methods = rng.chance(1, 4);
                 }
+                "C06" => p.switch_methods = rng.chance(1, 4),
                 "C10" => {
                     // faults concentrated in the first bytes
                     p.seg = rng.pick(&[0u8, 0, 1, 2, 4]);
@@ -334,6 +375,16 @@ pub fn generate(prop: &str, rng: &mut Rng, skip_fast: bool, run_index: u64) -> (
                     p.query_pct = 0;
                 }
                 _ => {}
+            }
+            if st.strategy == "long-morph" {
+                // delivered in one or two segments, every call sized by the query, String sinks
+                p.seg = rng.pick(&[3u8, 3, 0, 4]);
+                p.query_pct = 100;
+                p.peek = false;
+                p.switch_methods = false;
+                if !spec.form16 {
+                    p.kinds = vec![rng.pick(&[K_STRING, K_STRING, K_SLICE, K_STR])];
+                }
             }
             (Case::Dec { spec, ops: Vec::new(), strategy: format!("{}{}{}", st.strategy, if st.corrupt { "+corrupt" } else { "" }, if st.truncate { "+truncate" } else { "" }) }, p)
         }
@@ -1065,7 +1116,7 @@ pub fn execute(prop: &str, case: &mut Case, source: Source) -> RunOut {
         if strategy.contains("+truncate") {
             out.flags.push("fault_truncate_stream");
         }
-        for (k, f) in [("encoded-text", "workload_encoded_text"), ("edge-alphabet", "workload_edge_alphabet"), ("long-runs", "workload_long_runs"), ("ascii", "workload_ascii"), ("token-grammar", "workload_token_grammar"), ("enumerated-tokens", "workload_enumerated_tokens"), ("two-byte-sweep", "workload_two_byte_sweep")] {
+        for (k, f) in [("encoded-text", "workload_encoded_text"), ("edge-alphabet", "workload_edge_alphabet"), ("long-runs", "workload_long_runs"), ("ascii", "workload_ascii"), ("token-grammar", "workload_token_grammar"), ("enumerated-tokens", "workload_enumerated_tokens"), ("two-byte-sweep", "workload_two_byte_sweep"), ("long-morph", "workload_long_morph")] {
             if strategy.starts_with(k) {
                 out.flags.push(f);
             }
